@@ -130,7 +130,7 @@ class Slugs(object):
             status_code = 200
 
             def json(self_inner):
-                return {"groups": ["grp", int(host[5:])]}
+                return {"groups": ["other" if kind == "okB" else "grp", int(host[5:])]}
         r = R()
         if kind == "unreachable":
             raise IOError("connection refused")
